@@ -6,6 +6,7 @@ use serde_json::Value;
 pub mod c01;
 pub mod c02;
 pub mod c12;
+pub mod c13;
 pub mod util;
 
 pub type RunFn = fn(&mut Ctx);
@@ -15,6 +16,7 @@ pub const REGISTRY: &[(&str, RunFn, ReplayFn)] = &[
     ("C01", c01::run, c01::replay),
     ("C02", c02::run, c02::replay),
     ("C12", c12::run, c12::replay),
+    ("C13", c13::run, c13::replay),
 ];
 
 pub fn find(id: &str) -> Option<(RunFn, ReplayFn)> {
